@@ -49,6 +49,7 @@ func c02hScenarios() []hhScenario {
 	// two downstream connections share the pool of one host
 	add("two clients, one host", hhScenario{Hosts: 1, Requests: []hhRequest{rq("t1", true, hhOK), on(1, rq("t2", true, hhOK))}})
 	add("two clients, one host, three requests", hhScenario{Hosts: 1, Requests: []hhRequest{rq("t1", true, hhOK), on(1, rq("t2", false, hhOK)), rq("t3", false, hhOK)}})
+	add("two clients, two requests each, pooled connections change hands", hhScenario{Hosts: 1, Requests: []hhRequest{rq("t1", true, hhOK), on(1, rq("t2", false, hhOK)), rq("t3", false, hhOK), on(1, rq("t4", true, hhOK))}})
 	add("two clients, one host, one upstream connection allowed", hhScenario{Hosts: 1, MaxConnections: 1, Requests: []hhRequest{rq("t1", true, hhOK), on(1, rq("t2", true, hhOK))}})
 	// an upstream that answers late: at the very moment the per-try / global timer fires, or after the timeout reply
 	add("reply races the per-try timeout, next request follows", hhScenario{Hosts: 1, TryTimeoutMs: 100, Requests: []hhRequest{rq("t1", true, hhOKAtTry), rq("t2", true, hhOK)}})
@@ -64,6 +65,7 @@ func c02hScenarios() []hhScenario {
 	add("unsolicited second response, other client takes the connection", hhScenario{Hosts: 1, Settle: true, Requests: []hhRequest{rq("t1", true, hhOKPlusExtra), on(1, rq("t2", false, hhOK))}})
 	// an upstream that closes: instead of answering, mid-response, after answering, or announces it
 	add("upstream closes instead of answering", hhScenario{Hosts: 1, Requests: []hhRequest{rq("t1", true, hhClose), rq("t2", true, hhOK)}})
+	add("success, then the upstream closes instead of answering", hhScenario{Hosts: 1, Requests: []hhRequest{rq("t1", true, hhOK), rq("t2", true, hhClose), rq("t3", false, hhOK)}})
 	add("upstream closes mid-response", hhScenario{Hosts: 1, Requests: []hhRequest{rq("t1", true, hhCloseMid), rq("t2", true, hhOK)}})
 	add("upstream closes mid-response, retried", hhScenario{Hosts: 2, RetryOn: true, NumRetries: 1, Requests: []hhRequest{rq("t1", true, hhCloseMid, hhOK), rq("t2", true, hhOK)}})
 	add("upstream answers and closes", hhScenario{Hosts: 1, Requests: []hhRequest{rq("t1", true, hhOKThenClose), rq("t2", true, hhOK)}})
@@ -90,7 +92,7 @@ func c02hScripted(sc *hhScenario, st int) (idx int, ok bool) {
 	return -1, false
 }
 
-func c02hCheck(sc *hhScenario, obs *hhObs, r *vrt.Result, report func(kind, detail string)) {
+func c02hCheck(sc *hhScenario, obs *hhObs, r *vrt.Result, report func(kind, detail string), note func(what string)) {
 	if kind, detail, _ := hhExecProblem(r); kind != "" {
 		if !strings.HasPrefix(kind, "HARNESS") && !strings.HasPrefix(kind, "uncaught panic") {
 			// hangs are C03's business; here they only mean that this execution shows nothing
@@ -140,7 +142,14 @@ func c02hCheck(sc *hhScenario, obs *hhObs, r *vrt.Result, report func(kind, deta
 				}
 				serialSeen[f.Headers["rserial"]] = where
 			} else if si, scripted := c02hScripted(sc, f.Status); scripted {
-				report("response status comes from a different exchange than its headers", where+fmt.Sprintf(" (status of a scripted reply to request %s on a MOSN-generated reply)", sc.Requests[si].Token))
+				if si != i {
+					report("response status comes from a different exchange than its headers", where+fmt.Sprintf(" (status of a scripted reply to request %s on a MOSN-generated reply)", sc.Requests[si].Token))
+				} else {
+					// MOSN's own (timeout) reply to this request, labelled with the status of the late upstream
+					// response to the same request: both parts were produced for this very request, the
+					// statement is silent on mixing them. Enumerated, not compared.
+					note("replies_mixing_own_local_reply_and_own_upstream_status")
+				}
 			}
 			switch {
 			case f.Body == "":
@@ -148,7 +157,11 @@ func c02hCheck(sc *hhScenario, obs *hhObs, r *vrt.Result, report func(kind, deta
 				if f.Body != "resp-of-"+rq.Token {
 					report("response delivered to a request it was not produced for (body)", where)
 				} else if f.rtoken() == "" {
-					report("response header and body come from different exchanges", where)
+					kind := "response header and body come from different exchanges"
+					if obs.Attempts[rq.Token] > 1 {
+						kind += " [own body under a header block that is not the upstream's; the request was retried]"
+					}
+					report(kind, where)
 				}
 			case strings.HasPrefix(f.Body, "body-of-"):
 				if f.Body != "body-of-"+rq.Token {
@@ -231,7 +244,7 @@ func c02hRun(p *vreport.Part, sc hhScenario, replay bool, maxExecs int) bool {
 				return
 			}
 			p.Violation(kind, "scenario "+sc.Name+": "+detail+fmt.Sprintf(" | log=%v schedule=%v", obs.Log, r.Choices), cc)
-		})
+		}, func(what string) { p.Count(what, 1) })
 	})
 	p.AddTraces(st.Executions)
 	if os.Getenv("VERIF_STATS") != "" {
@@ -255,7 +268,7 @@ func TestVerifH1C02Correlation(t *testing.T) {
 	complete := true
 	n := 0
 	bound := vreport.Pick(1, 2)
-	maxExecs := vreport.Pick(20000, 120000)
+	maxExecs := vreport.Pick(20000, 80000)
 	for i, sc := range c02hScenarios() {
 		if only := os.Getenv("VERIF_C02H_ONLY"); only != "" {
 			if sc.Name != only || si != 0 {
